@@ -74,17 +74,39 @@ class Baton:
             self.cv.notify_all()
 
 
-def run_schedule(app, urls, plan):
-    """returns (outcomes, points per thread, preemptions)"""
+def run_schedule(app, urls, plan, gran="call", record=None, probe=None):
+    """returns (outcomes, points per thread, preemptions).
+
+    gran="call": preemption points are the `call` events of pydap frames (function entry, generator resume);
+    gran="line": additionally every `line` event of a pydap frame, i.e. a thread can be switched out between any
+    two source lines of any pydap function.  `record` (a list per thread) receives (filename, function, lineno) of
+    every point; `probe(t, k)` is called at every point before the scheduling decision (used to find the lines
+    that write module-level state)."""
     n = len(urls)
     baton = Baton(n, plan)
     outs = [None] * n
     errs = []
+    line = gran == "line"
 
     def worker(t):
+        rec = record[t] if record is not None else None
+
+        def at(frame):
+            if rec is not None:
+                rec.append((frame.f_code.co_filename[len(SRC):], frame.f_code.co_name, frame.f_lineno))
+            if probe is not None:
+                probe(t, baton.points[t])
+            baton.point(t)
+
+        def local(frame, event, arg):
+            if event == "line":
+                at(frame)
+            return local
+
         def tracer(frame, event, arg):
             if event == "call" and frame.f_code.co_filename.startswith(SRC):
-                baton.point(t)
+                at(frame)
+                return local if line else None
             return None
         try:
             with baton.cv:
@@ -113,48 +135,56 @@ def run_schedule(app, urls, plan):
     return outs, baton.points, baton.preemptions
 
 
-def solo_points(spec, url):
+def solo_points(spec, url, gran="call", record=None, probe=None):
     app = F.make_app(spec)[0]
-    outs, pts, _ = run_schedule(app, [url], [])
+    outs, pts, _ = run_schedule(app, [url], [], gran=gran, record=[record] if record is not None else None,
+                                probe=probe)
     return outs[0], pts[0]
 
 
-def check_schedule(ctx, spec, urls, plan, solo, where):
+def check_schedule(ctx, spec, urls, plan, solo, where, gran="call"):
     app, handler, ds = F.make_app(spec)
     snap = F.snapshot(ds)
-    outs, pts, pre = run_schedule(app, urls, plan)
-    case = {"oracle": "schedule", "spec": spec, "urls": urls, "plan": [list(p) for p in plan]}
+    outs, pts, pre = run_schedule(app, urls, plan, gran=gran)
+    case = {"oracle": "schedule", "gran": gran, "spec": spec, "urls": urls, "plan": [list(p) for p in plan]}
     bad = False
     for t, (got, exp) in enumerate(zip(outs, solo)):
         if got != exp:
-            ctx.oracle_fail("response depends on the thread schedule", dict(case, thread=t), F.show(got), F.show(exp),
-                            size=len(repr(spec)) + 60 * len(urls) + sum(k for _, k in plan))
+            ctx.oracle_fail("response depends on the thread schedule (%s granularity)" % gran, dict(case, thread=t),
+                            F.show(got), F.show(exp),
+                            size=len(repr(spec)) + 60 * len(urls) + 10 * len(plan))
             bad = True
             break
     if not bad and F.snapshot(ds) != snap:
         ctx.oracle_fail("served dataset changed by concurrent requests", case, "snapshot differs", "unchanged",
                         size=len(repr(spec)) + 60 * len(urls))
         bad = True
-    ctx.count(("sched", repr(spec), tuple(urls), tuple(map(tuple, plan))), pre >= 1,
-              tag="%s:threads=%d:preemptions=%d" % (where, len(urls), min(pre, 3)),
-              sample={"urls": urls, "plan": plan[:3], "points": pts})
+    ctx.count(("sched", gran, repr(spec), tuple(urls), tuple(map(tuple, plan))), pre >= 1,
+              tag="%s:%s:threads=%d:preemptions=%d" % (where, gran, len(urls), min(pre, 3)),
+              sample={"urls": urls, "gran": gran, "plan": plan[:3], "points": pts})
     return not bad
 
 
 def replay_case(c):
     spec, urls, plan = c["spec"], c["urls"], [tuple(p) for p in c["plan"]]
+    gran = c.get("gran", "call")
     solo = [F.call(F.make_app(spec)[0], u) for u in urls]
     app, handler, ds = F.make_app(spec)
     snap = F.snapshot(ds)
-    outs, pts, pre = run_schedule(app, urls, plan)
+    rec = [[] for _ in urls]
+    outs, pts, pre = run_schedule(app, urls, plan, gran=gran, record=rec)
     ok = True
     for u, got, exp in zip(urls, outs, solo):
         if got != exp:
-            print("schedule %s: %s -> %s, alone -> %s" % (plan, u, F.show(got), F.show(exp)))
+            print("schedule %s (%s points): %s -> %s, alone -> %s" % (plan, gran, u, F.show(got), F.show(exp)))
             ok = False
     if F.snapshot(ds) != snap:
         print("schedule %s: served dataset changed" % (plan,))
         ok = False
+    if not ok:
+        for t, k in plan[:-1]:
+            if 0 <= k < len(rec[t]):
+                print("  thread %d (%s) switched out before %s:%s line %d" % ((t, urls[t]) + rec[t][k]))
     return ok
 
 
@@ -223,11 +253,11 @@ def _solo(spec, url):
 
 
 def _job(job):
-    spec, urls, plans, where = job
+    spec, urls, plans, where, gran = job
     rec = Rec()
     solo = [_solo(spec, u) for u in urls]
     for plan in plans:
-        if not check_schedule(rec, spec, urls, plan, solo, where):
+        if not check_schedule(rec, spec, urls, plan, solo, where, gran=gran):
             break
     return rec.calls
 
@@ -236,60 +266,20 @@ def chunks(xs, n):
     return [xs[i:i + n] for i in range(0, len(xs), n)]
 
 
-def explore(ctx, tier, rng, specs, search=False):
+INF = 10 ** 9
+
+
+def strided(xs, budget, offset=0):
+    """at most ~budget elements of xs, evenly strided, starting at a seed-dependent offset"""
+    if len(xs) <= budget:
+        return xs, 1
+    stride = -(-len(xs) // budget)
+    return xs[offset % stride::stride], stride
+
+
+def run_jobs(ctx, jobs):
     import multiprocessing
 
-    quick = tier == "quick" and not search
-    jobs = []
-    notes = []
-    # warm-up in the parent (imports, regex and singledispatch caches) and the points of every request
-    for spec, groups, label in ((F.FIXED_SPEC, FIXED_GROUPS, "fixed"), (TINY_SPEC, TINY_GROUPS, "tiny")):
-        for gi, urls in enumerate(groups):
-            pts = []
-            for u in urls:
-                o, p = solo_points(spec, u)
-                ref = _solo(spec, u)
-                if o != ref:
-                    ctx.oracle_fail("response differs when run in a worker thread",
-                                    {"oracle": "schedule", "spec": spec, "urls": [u], "plan": []}, F.show(o), F.show(ref))
-                pts.append(p)
-            one = list(one_preemption_plans(pts))
-            tag = "one-preemption-exhaustive"
-            if quick and label == "fixed" and gi >= 2:
-                one, tag = one[gi % 8::8], "one-preemption-sampled"
-            for ch in chunks(one, 120):
-                jobs.append((spec, urls, ch, tag))
-            if label == "tiny":
-                # two preemptions: exhaustive on the tiny dataset in the thorough tier, a lattice in the quick tier
-                stride = 12 if quick else 1
-                two = list(two_preemption_plans(pts, stride=stride))
-                for ch in chunks(two, 150):
-                    jobs.append((spec, urls, ch, "two-preemptions-%s" % ("lattice" if stride > 1 else "exhaustive")))
-                notes.append("%s %s: points=%s one-preemption=%d two-preemption(stride %d)=%d"
-                             % (label, urls, pts, len(one), stride, len(two)))
-            else:
-                if not quick:
-                    stride = max(1, int((2.0 * pts[0] * pts[1] / 12000.0) ** 0.5))
-                    two = list(two_preemption_plans(pts[:2], stride=stride))
-                    for ch in chunks(two, 150):
-                        jobs.append((spec, urls[:2], ch, "two-preemptions-lattice"))
-                    notes.append("%s %s: points=%s one-preemption=%d two-preemption lattice stride %d=%d"
-                                 % (label, urls, pts, len(one), stride, len(two)))
-                else:
-                    notes.append("%s %s: points=%s one-preemption=%d" % (label, urls, pts, len(one)))
-    # random schedules with more preemptions, random datasets and request groups
-    n_random = 300 if quick else 8000
-    rnd = []
-    for i in range(n_random):
-        if i % 3 == 0:
-            spec, urls = F.FIXED_SPEC, rng.sample(F.FIXED_REQUESTS, rng.choice([2, 3]))
-        else:
-            spec = rng.choice(specs)
-            urls = [F.rand_request(rng, spec)[0] for _ in range(rng.choice([2, 2, 3]))]
-        plan = [(rng.randrange(len(urls)), rng.choice([0, 1, 2, 3, 5, 8, 13, 21, 34, 55, 89, rng.randint(0, 400)]))
-                for _ in range(rng.randint(2, 12))]
-        rnd.append((spec, urls, [plan], "random"))
-    jobs += rnd
     workers = max(2, min(14, (os.cpu_count() or 4) - 2))
     total = 0
     with multiprocessing.get_context("fork").Pool(workers) as pool:
@@ -299,4 +289,173 @@ def explore(ctx, tier, rng, specs, search=False):
                 if name == "count":
                     total += 1
     ctx.extra["schedules_run"] = ctx.extra.get("schedules_run", 0) + total
+    return total
+
+
+def explore(ctx, tier, rng, specs, search=False):
+    """Budgets (schedules; measured ~450 schedules/s on 14 workers):
+    quick   ~28 k: line-level one-preemption EXHAUSTIVE on the tiny pairs; call-level one-preemption exhaustive on
+                   two fixed pairs and every 10th point of five more groups; 150 seeded random line points per fixed
+                   group; a stride-14 lattice of call-level two-preemption schedules on the tiny pairs; 300 random
+                   multi-preemption schedules (half of them at line granularity).
+    thorough ~170 k: line-level one-preemption exhaustive on the tiny pairs and two fixed pairs, every 4th line point
+                   (seeded offset) + every call point of the other five groups; two-preemption call-level lattices
+                   capped at 40 k (tiny) and 4 k per fixed pair; 6000 random."""
+    quick = tier == "quick" and not search
+    jobs = []
+    notes = []
+    off = rng.randrange(1 << 16)
+    # warm-up in the parent (imports, regex and singledispatch caches) and the points of every request
+    for spec, groups, label in ((F.FIXED_SPEC, FIXED_GROUPS, "fixed"), (TINY_SPEC, TINY_GROUPS, "tiny")):
+        for gi, urls in enumerate(groups):
+            pts, lpts = [], []
+            for u in urls:
+                o, p = solo_points(spec, u)
+                o2, p2 = solo_points(spec, u, gran="line")
+                ref = _solo(spec, u)
+                for oo, g in ((o, "call"), (o2, "line")):
+                    if oo != ref:
+                        ctx.oracle_fail("response differs when run in a traced worker thread",
+                                        {"oracle": "schedule", "gran": g, "spec": spec, "urls": [u], "plan": []},
+                                        F.show(oo), F.show(ref))
+                pts.append(p)
+                lpts.append(p2)
+            one = list(one_preemption_plans(pts))
+            line_one = list(one_preemption_plans(lpts))
+            if label == "tiny":
+                # line granularity, every single preemption point: subsumes the call-level one-preemption schedules
+                for ch in chunks(line_one, 120):
+                    jobs.append((spec, urls, ch, "one-preemption-exhaustive", "line"))
+                # two preemptions (call level): a lattice; the full square is ~10^6 schedules
+                allsq = sum(pts[t] * pts[u] for t in range(len(pts)) for u in range(len(pts)) if u != t)
+                stride = 14 if quick else max(1, int((allsq / 20000.0) ** 0.5) + 1)
+                two = list(two_preemption_plans(pts, stride=stride))
+                for ch in chunks(two, 150):
+                    jobs.append((spec, urls, ch, "two-preemptions-lattice", "call"))
+                notes.append("%s %s: call points=%s line points=%s one-preemption(line, exhaustive)=%d "
+                             "two-preemption(call, stride %d of %d)=%d"
+                             % (label, urls, pts, lpts, len(line_one), stride, allsq, len(two)))
+                continue
+            if gi < 2:
+                if quick:
+                    for ch in chunks(one, 120):
+                        jobs.append((spec, urls, ch, "one-preemption-exhaustive", "call"))
+                    sample, tag = rng.sample(line_one, min(150, len(line_one))), "one-preemption-random-sample"
+                else:
+                    sample, tag = line_one, "one-preemption-exhaustive"
+            else:
+                if quick:
+                    sub = one[(gi + off) % 10::10]
+                    for ch in chunks(sub, 120):
+                        jobs.append((spec, urls, ch, "one-preemption-sampled", "call"))
+                    sample, tag = rng.sample(line_one, min(150, len(line_one))), "one-preemption-random-sample"
+                else:
+                    for ch in chunks(one, 120):
+                        jobs.append((spec, urls, ch, "one-preemption-exhaustive", "call"))
+                    sample, tag = line_one[off % 4::4], "one-preemption-every-4th"
+            for ch in chunks(sample, 120):
+                jobs.append((spec, urls, ch, tag, "line"))
+            note = "%s %s: call points=%s line points=%s line-level one-preemption %s=%d" % (
+                label, urls, pts, lpts, tag, len(sample))
+            if not quick:
+                stride = max(1, int((2.0 * pts[0] * pts[1] / 4000.0) ** 0.5))
+                two = list(two_preemption_plans(pts[:2], stride=stride))
+                for ch in chunks(two, 150):
+                    jobs.append((spec, urls[:2], ch, "two-preemptions-lattice", "call"))
+                note += " two-preemption(call) lattice stride %d=%d" % (stride, len(two))
+            notes.append(note)
+    # random schedules with more preemptions, random datasets and request groups
+    n_random = 300 if quick else 6000
+    for i in range(n_random):
+        if i % 3 == 0:
+            spec, urls = F.FIXED_SPEC, rng.sample(F.FIXED_REQUESTS, rng.choice([2, 3]))
+        else:
+            spec = rng.choice(specs)
+            urls = [F.rand_request(rng, spec)[0] for _ in range(rng.choice([2, 2, 3]))]
+        gran = "line" if i % 2 else "call"
+        scale = 4 if gran == "line" else 1
+        plan = [(rng.randrange(len(urls)),
+                 scale * rng.choice([0, 1, 2, 3, 5, 8, 13, 21, 34, 55, 89, rng.randint(0, 400)]) + rng.randrange(scale))
+                for _ in range(rng.randint(2, 12))]
+        jobs.append((spec, urls, [plan], "random", gran))
+    run_jobs(ctx, jobs)
     ctx.extra["schedule_groups"] = notes
+
+
+# ---- targeted line-level search around module-level state ---------------------------------------------
+def _profile(spec, url, labels):
+    """one solo line-level run of `url`: the points, and the indices of the points right after which (and right
+    before which) one of the containers `labels` changed"""
+    from props import c13_modstate as M
+
+    rec = []
+    state = {"n": 0, "objs": None, "last": None}
+    hits = []
+
+    def probe(t, k):
+        if state["objs"] is None or state["n"] % 64 == 0:
+            r = M.roots()
+            state["objs"] = [r.get(l) for l in labels]
+        state["n"] += 1
+        cur = tuple(M.fp(o) if o is not None else "<absent>" for o in state["objs"])
+        if state["last"] is not None and cur != state["last"]:
+            hits.append(k)
+        state["last"] = cur
+
+    out, n = solo_points(spec, url, gran="line", record=rec, probe=probe)
+    return out, rec, hits
+
+
+def targeted(ctx, rng, breaks, search=False):
+    """`breaks`: [{"label", "spec", "url"}] — requests that were seen to change a module-level container.
+    For every such container: the functions that name it (static) or were running when it changed (dynamic); for
+    pairs of different requests that both write it, every one-preemption schedule whose switch point is a line of
+    one of those functions (both threads, both orders).  Failures are recorded with the schedule."""
+    from props import c13_modstate as M
+
+    by = {}
+    for b in breaks:
+        by.setdefault(b["label"], {}).setdefault(repr(b["spec"]), (b["spec"], []))[1].append(b["url"])
+    jobs = []
+    notes = []
+    max_pairs = 96 if search else 24
+    for label in sorted(by):
+        funcs = set(M.functions_naming([label]))
+        cands = []
+        for _, (spec, urls) in sorted(by[label].items()):
+            urls = sorted(set(urls))
+            for i in range(len(urls)):
+                for j in range(i + 1, len(urls)):
+                    if _solo(spec, urls[i]) != _solo(spec, urls[j]):
+                        common_prefix = len(os.path.commonprefix([urls[i], urls[j]]))
+                        cands.append((-common_prefix, rng.random(), spec, urls[i], urls[j]))
+        cands.sort(key=lambda c: c[:2])
+        prof = {}
+        n_plans = 0
+        for _, _, spec, ua, ub in cands[:max_pairs]:
+            idx = []
+            for u in (ua, ub):
+                key = (repr(spec), u)
+                if key not in prof:
+                    prof[key] = _profile(spec, u, [label])
+                    # functions seen writing the container join the target set
+                    _, rec, hits = prof[key]
+                    for k in hits:
+                        for kk in (k - 1, k):
+                            if 0 <= kk < len(rec):
+                                funcs.add(rec[kk][:2])
+            for u in (ua, ub):
+                _, rec, hits = prof[(repr(spec), u)]
+                ks = set(k for k, p in enumerate(rec) if p[:2] in funcs)
+                ks.update(k for h in hits for k in (h - 1, h, h + 1) if 0 <= k < len(rec))
+                idx.append(sorted(ks))
+            plans = [[(0, k), (1, INF)] for k in idx[0]] + [[(1, k), (0, INF)] for k in idx[1]]
+            plans, _ = strided(plans, 1500 if search else 700, rng.randrange(1 << 16))
+            n_plans += len(plans)
+            for ch in chunks(plans, 100):
+                jobs.append((spec, [ua, ub], ch, "targeted-line:%s" % label.rsplit(".", 1)[1], "line"))
+        notes.append("%s: functions %s; %d request pairs (of %d), %d targeted one-preemption schedules"
+                     % (label, sorted("%s:%s" % f for f in funcs), min(len(cands), max_pairs), len(cands), n_plans))
+    if jobs:
+        run_jobs(ctx, jobs)
+    ctx.extra["targeted_line_search"] = ctx.extra.get("targeted_line_search", []) + notes
